@@ -604,9 +604,12 @@ func init() {
 		Quick:    []HarnessRun{c04(map[string]int{"N": 1, "L": 1}, 40), c04(map[string]int{"N": 1, "PRE": 1, "NILKEYS": 0, "NTAGSMAX": 1}, 20), ks, lpmRun(map[string]int{"N": 2, "PRE": 1, "OPSEQ": 1, "NPMIN": 1}), lpmRun(map[string]int{"N": 1, "PRE": 2}),
 			// 18 primary keys "p", "pA".."pQ" (a node48 carrying a value): one symbolic delete around it
 			c04(map[string]int{"N": 1, "L": 1, "BIGPRE": 17, "NTAGSMAX": 0, "NILKEYS": 0, "REJECTED": 0, "OPMIN": 2}, 10)},
-		Thorough: []HarnessRun{c04(map[string]int{"N": 1, "PRE": 2, "NTAGSMAX": 1}, 20), c04(map[string]int{"N": 1, "L": 2, "BIGPRE": 17, "NTAGSMAX": 0, "NILKEYS": 0, "REJECTED": 0, "OPMIN": 2}, 10)},
+		Thorough: []HarnessRun{
+			// LowerBound through the LPM index: (stored prefix, object) pairs not below the query, in (masked bits, length, primary key) order
+			{Entry: "VerifC04LPM", Params: map[string]int{"N": 1, "PRE": 2, "LOWERBOUND": 1}, Covers: []string{"C04.lpm.end", "C04.lpm.lowerbound"}, DiffRuns: 20},
+			c04(map[string]int{"N": 1, "PRE": 2, "NTAGSMAX": 1}, 20), c04(map[string]int{"N": 1, "L": 2, "BIGPRE": 17, "NTAGSMAX": 0, "NILKEYS": 0, "REJECTED": 0, "OPMIN": 2}, 10)},
 		Known: []KnownProbe{},
-		Outside: []string{"LPM index at table level: VerifC04LPM (objects with 0..2 prefixes over 8-bit data, lengths {4,8}, possibly masking to the same key; Get/List = longest match, Prefix = covered); AnyTable string-keyed queries; key sets with more than 2 keys; more than N symbolic writes after PRE concrete objects; keys longer than L",
+		Outside: []string{"LPM index at table level: VerifC04LPM (objects with 0..2 prefixes over 8-bit data, lengths {4,8}, possibly masking to the same key; Get/List = longest match, Prefix = covered; thorough tier: LowerBound = pairs not below the query in trie order); AnyTable string-keyed queries; key sets with more than 2 keys; more than N symbolic writes after PRE concrete objects; keys longer than L",
 			"the order assertion is on the stored index keys (bytewise ascending), which by C18 is (index key, primary key) order"},
 	})
 }
@@ -719,7 +722,9 @@ func init() {
 	})
 	reg(&CheckSpec{
 		ID: "C20", PkgDir: "statedb",
-		Quick:    []HarnessRun{{Entry: "VerifC20WatchSet", Params: map[string]int{"NCH": 2, "TMAX": 3}, Covers: []string{"C20.result", "C20.cancelled", "C20.settled-several", "C20.second-wait", "C20.end"}, NoNative: true, Deadlock: true}},
+		Quick: []HarnessRun{{Entry: "VerifC20WatchSet", Params: map[string]int{"NCH": 2, "TMAX": 3}, Covers: []string{"C20.result", "C20.cancelled", "C20.settled-several", "C20.second-wait", "C20.end"}, NoNative: true, Deadlock: true},
+			// members that enter through Merge of another set; a cleared set contributes nothing; HasAny
+			{Entry: "VerifC20WatchSet", Params: map[string]int{"NCH": 2, "TMAX": 2, "MERGE": 1}, Covers: []string{"C20.merged-member", "C20.result", "C20.end"}, NoNative: true, Deadlock: true}},
 		Thorough: []HarnessRun{{Entry: "VerifC20WatchSet", Params: map[string]int{"NCH": 2, "TMAX": 5}, Covers: []string{"C20.result", "C20.cancelled", "C20.settled-several", "C20.end"}, NoNative: true, Deadlock: true}},
 		Outside:  []string{"outside: real timer jitter; more than 3 channels; times beyond TMAX units; virtual discrete-event time (CPU steps take no time, timers fire when every thread is blocked); reflect.Select is modelled by the VM's select (choice among ready cases is explored)"},
 	})
